@@ -23,7 +23,7 @@ Definition pair_mem (tab : list (N * N)) (a b : N) : bool := existsb (fun x => (
 Fixpoint tcheck (am : N -> N -> bool) (k : nat) (t : tstate) (s : sstate) (l : list tk) : list nat :=
   match l with
   | [] => []
-  | TOp o :: r => tcheck am (S k) (tstep true true am t o) (sstep am s o) r
+  | TOp o :: r => tcheck am (S k) (tstep true true true am t o) (sstep am s o) r
   | TRead d rp n q want :: r =>
       (if wset_eqb (map proj (tread am t d rp n q)) want && wset_eqb (map proj (sread am s d rp n q)) want then [] else [k])
       ++ tcheck am (S k) t s r
